@@ -20,7 +20,7 @@ KIND_WHAT = {
     "harness-pki-mismatch": "harness problem: the standard library disagrees with the scenario name about the PKI",
     "panic-or-hang": "endpoint panicked or did not return",
 }
-CASE_FIELDS = ("id", "vers", "suite", "key", "scen", "cscen", "ckey", "auth")
+CASE_FIELDS = ("id", "vers", "suite", "key", "scen", "cscen", "ckey", "auth", "cas")
 HIST_FIELDS = ("id", "vers", "key", "steps")
 KIND_WHAT["verifying-client-resumed-unverified-session"] = "a verifying client completed by resuming a session whose chain does not verify under its settings (e.g. established with InsecureSkipVerify)"
 KIND_WHAT["good-step-failed"] = "a connection of a history that had to complete failed"
@@ -28,7 +28,7 @@ KIND_WHAT["disagreement"] = "client and server disagree on DidResume"
 
 
 def sig_of(f):
-    return {k: f[k] for k in ("kind", "vers", "scen", "cscen", "auth", "kx", "key", "step", "skip", "resumed", "origin_skip") if k in f}
+    return {k: f[k] for k in ("kind", "vers", "scen", "cscen", "auth", "kx", "key", "cas", "step", "skip", "resumed", "origin_skip") if k in f}
 
 
 def to_cands(records, rejects):
@@ -42,9 +42,9 @@ def to_cands(records, rejects):
                 o["cres"], o["origin"], o["relied_ok"], o["cerr"][:90])
             cands.append({"sig": sig_of(facts), "what": what, "case": {k: rec[k] for k in HIST_FIELDS}})
             continue
-        what = "%s (TLS 1.%d suite %s key %s, server scenario %s, client scenario %s, ClientAuthType %d; client done=%s err=%r; server done=%s err=%r)" % (
+        what = "%s (TLS 1.%d suite %s key %s, server scenario %s, client scenario %s, ClientAuthType %d, ClientCAs %s; client done=%s err=%r; server done=%s err=%r)" % (
             KIND_WHAT.get(facts["kind"], facts["kind"]), rec["vers"] - 10, rec["suite"], rec["key"], rec["scen"], rec["cscen"],
-            rec["auth"], rec["obs"]["cdone"], rec["obs"]["cerr"][:90], rec["obs"]["sdone"], rec["obs"]["serr"][:90])
+            rec["auth"], rec.get("cas") or "with", rec["obs"]["cdone"], rec["obs"]["cerr"][:90], rec["obs"]["sdone"], rec["obs"]["serr"][:90])
         cands.append({"sig": sig_of(facts), "what": what, "case": {k: rec[k] for k in CASE_FIELDS}})
     return cands
 
@@ -70,8 +70,10 @@ def run_cases(ctx, binary, cases, tag):
 def selftest_records(records):
     records = [r for r in records if "steps" not in r]
     bad_server = [r for r in records if r["scen"] in ("WrongKey", "Expired", "CorruptSKXSig") and not r["obs"]["cdone"]]
-    bad_client = [r for r in records if r["scen"] == "Trusted" and r["cscen"] == "ClientUntrusted" and r["auth"] == 4 and not r["obs"]["sdone"]]
-    good = [r for r in records if r["scen"] == "Trusted" and r["cscen"] == "ClientTrusted" and r["obs"]["cdone"] and r["obs"]["sdone"]]
+    bad_client = [r for r in records if r["scen"] == "Trusted" and r["cscen"] == "ClientUntrusted" and r["auth"] == 4 and not r["obs"]["sdone"]
+                  and r["cas"] == "with"]
+    good = [r for r in records if r["scen"] == "Trusted" and r["cscen"] == "ClientTrusted" and r["obs"]["cdone"] and r["obs"]["sdone"]
+            and r["cas"] == "with"]
     out = []
     if bad_server:
         a = copy.deepcopy(bad_server[0]); a["id"] = -1; a["obs"]["cdone"] = True
@@ -162,8 +164,27 @@ def run(ctx):
     for w in ("CorruptSKXSig", "CorruptSKXParams", "CorruptServerFinished", "CorruptClientFinished", "CorruptClientCV"):
         if fired.get(w, 0) < 5:
             raise Machinery("wire scenario %s fired only %d times (vacuous)" % (w, fired.get(w, 0)))
+    sigs = {}
+    for r in recs:
+        for k in ("sigfired", "csigfired"):
+            if r[k]:
+                key = "%s/%s" % (r[k], r["key"] if k == "sigfired" else r["ckey"])
+                sigs[key] = sigs.get(key, 0) + 1
+    for w in ("SigEmpty", "SigShort", "SigLong", "ClientSigEmpty", "ClientSigShort", "ClientSigLong"):
+        for kt in ("E", "P", "R"):
+            if not sigs.get("%s/%s" % (w, kt)):
+                raise Machinery("structural signature corruption %s never fired with key type %s (vacuous): %s" % (w, kt, sigs))
+    cas = {}
+    for r in recs:
+        if r["auth"] >= 3 and r["cscen"] != "NoClientCert":
+            k = "%s:%s" % (r["cas"], "completed" if r["obs"]["sdone"] else "refused")
+            cas[k] = cas.get(k, 0) + 1
+    for k in ("nil:refused", "empty:refused", "without:refused", "without:completed", "with:completed", "with:refused"):
+        if not cas.get(k):
+            raise Machinery("ClientCAs classes not covered (vacuous): %s" % cas)
     srecs = recs + rrecs
     cov = {
+        "structural_signature_corruptions_fired": sigs, "client_cas_classes_verifying_server": cas,
         "histories": hist_cov, "server_name_classes": names,
         "completed": sum(1 for r in srecs if r["obs"]["cdone"] and r["obs"]["sdone"]),
         "client_refused": sum(1 for r in srecs if not r["obs"]["cdone"] and (not r["std"]["server_chain_ok"] or not r["std"]["server_key_ok"])),
